@@ -30,6 +30,19 @@ def _setlook(i):
     return fn
 
 
+def _dropchar(field):
+    def fn(e):
+        toks = e.get(field)
+        if not toks:
+            return None
+        for t in toks:
+            if len(t[1]) >= 1:
+                t[1] = t[1][1:]
+                return e
+        return None
+    return fn
+
+
 PROPS = {
     'C11': dict(
         tv=dict(module='ScannerTrace', cfg='ScannerTrace.cfg'),
@@ -50,6 +63,12 @@ PROPS = {
         corrupt=[('obs.type+1', _bump('obs.type')), ('obs.k+1', _bump('obs.k'))],
         exhaustive_part=True,
         assumptions=['guarded hook StringScanner.VerifCursor (consumed characters)'],
+    ),
+    'C04': dict(
+        tv=dict(module='TokenStreamTrace', cfg='TokenStreamTrace.C04.cfg'),
+        mc=[],
+        corrupt=[('drop a character of a token value', _dropchar('base'))],
+        exhaustive_part=True,
     ),
 }
 
@@ -88,5 +107,13 @@ DOC = {
         note='Trusted: TLC, Json module, recorder, hook VerifCursor. Token type 0 (Unknown) is reserved by the implementation as "unset" '
              'and not generated; re-registering one symbol with another type is not driven.',
         technique='TLA+ spec + TLC refinement check over all symbol sets (SymbolTrieMC) + TLC trace validation of the real symbol state (SymbolTrieTrace)',
+    ),
+    'C04': dict(
+        level='TokenStream.tla states losslessness (values concatenate to the input, exactly one empty end-of-input marker at the end, no '
+              'other empty token). Every input up to the bound over each tokenizer\'s alphabet of state-selecting characters, a deeper '
+              'enumeration over the characters with push-back paths, and random/mutated longer inputs are tokenized by the four real '
+              'tokenizers with all options off; TLC evaluates the predicate on every recorded stream (TokenStreamTrace, Check = C04).',
+        note='Trusted: TLC, Json module, recorder. Exhaustive only up to the stated length over the listed alphabets; longer inputs sampled.',
+        technique='TLA+ predicate spec (TokenStream) + TLC trace validation of exhaustive small-alphabet and random inputs',
     ),
 }
